@@ -349,7 +349,17 @@ func mkErr(s string) error {
 func opFail(it item) any {
 	poison, _ := hex.DecodeString(it.A)
 	fresh, _ := hex.DecodeString(it.Hex[0])
-	fr := &failReader{data: append(append([]byte{}, poison...), fresh[:it.K]...), err: mkErr(it.Err)}
+	// successful earlier reads through the same ErrorReader, all derived from the poison
+	// pattern: a uint64, a GUID, a short string, a date and a uint16. Whatever scratch state a
+	// reader keeps, it differs between the two poison runs.
+	var pre []byte
+	pre = append(pre, poison...)                                         // ReadUint64
+	pre = append(pre, append(append([]byte{}, poison...), poison...)...) // ReadGUID
+	pre = append(pre, 8, 0, 0, 0)
+	pre = append(pre, poison...)     // ReadString (8 bytes)
+	pre = append(pre, poison...)     // ReadDate
+	pre = append(pre, poison[:2]...) // ReadUint16
+	fr := &failReader{data: append(pre, fresh[:it.K]...), err: mkErr(it.Err)}
 	var val string
 	var errS string
 	var ms0, ms1 runtime.MemStats
@@ -357,6 +367,10 @@ func opFail(it item) any {
 	out, site := core.Guard(func() {
 		er := iohelp.NewErrorReader(fr)
 		first = iohelp.ReadUint64(er)
+		_ = iohelp.ReadGUID(er)
+		_ = iohelp.ReadString(er)
+		_ = iohelp.ReadDate(er)
+		_ = iohelp.ReadUint16(er)
 		if er.Err != nil {
 			errS = "early:" + er.Err.Error()
 			return
